@@ -39,7 +39,7 @@ Files == [inc |-> <<T(<<"i:">>), Out(Var(<<"q">>))>>]
 
 TransportKinds == <<"none", "set", "with", "forlit", "forchars", "macroarg", "macrodef", "macroouter", "concat", "arrfirst", "arrjoin",
                     "ifchanged", "filtertag", "if", "defaultfilter", "withold", "autoescape_on", "forctx", "concat_safe_left", "concat_safe_right", "set_concat_safe">>
-Name(base, lv) == IF lv = 1 THEN base \o "1" ELSE base \o "2"
+Name(base, lv) == base \o <<"1", "2", "3">>[lv]
 
 \* Tr(kind, level, E, K): the program fragment that moves the tainted expression E through one transport and hands the
 \* expression under which it is known afterwards to the continuation K
@@ -93,6 +93,11 @@ Init ==
   /\ CASE Family = "routes" ->
             \E s \in 1..Len(Sources), t1 \in 1..Len(TransportKinds), t2 \in 1..Len(TransportKinds), k \in 1..Len(SinkKinds) :
               prog = Tr(TransportKinds[t1], 1, Sources[s], LAMBDA e1 : Tr(TransportKinds[t2], 2, e1, LAMBDA e2 : Sink(SinkKinds[k], e2)))
+       [] Family = "routes3" ->
+            \* (thorough tier) three transports deep: a binding transport, any transport, a binding transport
+            \E s \in 1..Len(Sources), t1 \in {2, 3, 4, 6, 7, 9, 13, 15}, t2 \in 1..Len(TransportKinds), t3 \in {2, 3, 4, 6, 7, 9, 13, 15}, k \in 1..Len(SinkKinds) :
+              prog = Tr(TransportKinds[t1], 1, Sources[s], LAMBDA e1 : Tr(TransportKinds[t2], 2, e1, LAMBDA e2 :
+                        Tr(TransportKinds[t3], 3, e2, LAMBDA e3 : Sink(SinkKinds[k], e3))))
        [] Family = "mapkey" ->
             \E t2 \in 1..Len(TransportKinds), k \in 1..Len(SinkKinds) :
               prog = << [t |-> "for", key |-> "kk", val |-> "vv", e |-> Var(<<"mk">>), rev |-> FALSE, sorted |-> TRUE,
